@@ -248,6 +248,39 @@ func runCase(c *wk.Ctx, i int, p plan, r *rand.Rand) {
 		if err := db.Close(); err != nil {
 			res.surfaced["close_returned_error"]++
 		}
+		// In half of the cases the recovery itself runs into a failure first (any operation kind on
+		// any file type, at one of its first operations); whether that Open fails or not, a later
+		// fault-free Open must succeed and show the same contents.
+		if r.Intn(2) == 0 {
+			ks := []vstor.OpKind{vstor.OpOpen, vstor.OpReadAt, vstor.OpCreate, vstor.OpWrite, vstor.OpSync, vstor.OpRemove, vstor.OpSetMeta, vstor.OpList, vstor.OpGetMeta}
+			ts := []storage.FileType{storage.TypeManifest, storage.TypeJournal, storage.TypeTable}
+			k := ks[r.Intn(len(ks))]
+			f := vstor.Fault{Kind: k, Nth: 1 + r.Intn(4), Count: 1 + r.Intn(3)}
+			if k != vstor.OpList && k != vstor.OpGetMeta {
+				f.Type = ts[r.Intn(len(ts))]
+			}
+			rf := st.AddFault(f)
+			dbr, rerr := leveldb.Open(st, os.Clone())
+			st.ClearFaults()
+			if rerr == nil {
+				// it opened in spite of (or without meeting) the fault: use it briefly, then close
+				for n := 0; n < 5; n++ {
+					cl.DB = dbr
+					if rp := cl.Read(); rp != nil {
+						res.sig, res.msg, res.w = "wrong-value-served", fmt.Sprintf("after a recovery that met a fault, Get(%s) returned %s; explainable: %v", rp.Key, rp.Got, rp.Want), wit(map[string]interface{}{"read": rp})
+						dbr.Close()
+						return
+					}
+				}
+				dbr.Close()
+			}
+			if rf.Hits > 0 {
+				res.surfaced["faults_hit_during_recovery"]++
+				if rerr != nil {
+					res.surfaced["recovery_failed_under_fault"]++
+				}
+			}
+		}
 		db2, err := leveldb.Open(st, os.Clone())
 		if err != nil {
 			res.sig, res.msg, res.w = "reopen-failed-after-faults", fmt.Sprintf("fault plan %s: fault-free Open after Close failed: %v", p, err), wit(nil)
